@@ -6,7 +6,6 @@ from typing import Union
 
 import numpy
 
-from .iterators import peekable_iter
 
 # Expression formatting
 
@@ -20,7 +19,7 @@ def format_expr(expr: Union[str, ast.AST]) -> str:
 
 
 UNQUOTED_BACKTICK_MATCHER = re.compile(
-    r"(\\\"|\"(?:\\.|[^\"\\])*\"|\\'|'(?:\\.|[^'\\])*'|`)"
+    r"(\\\"|\"(?:\\.|[^\"\\])*\"|\\'|'(?:\\.|[^'\\])*'|`[^`]*`)"
 )
 
 
@@ -51,36 +50,22 @@ def sanitize_variable_names(
         The sanitized expression.
     """
 
-    expr_parts = peekable_iter(UNQUOTED_BACKTICK_MATCHER.split(expr))
-
     sanitized_expr = []
 
-    for expr_part in expr_parts:
-        if expr_part == "`":
-            variable_name_parts = []
-            while expr_parts.peek(None) not in ("`", None):
-                variable_name_parts.append(next(expr_parts))
-            variable_name = "".join(variable_name_parts)
-            if expr_parts.peek(None) is None:
-                sanitized_expr.append(f"`{variable_name}")
-            else:
-                next(expr_parts)
-                new_name = next(
-                    (
-                        alias
-                        for alias, name in aliases.items()
-                        if name == variable_name
-                    ),
-                    None,
-                )  # the same name again: the same placeholder
-                if new_name is None:
-                    new_name = sanitize_variable_name(
-                        variable_name, env, template=template
-                    )
-                while aliases.get(new_name, variable_name) != variable_name:
-                    new_name += "_"
-                aliases[new_name] = variable_name
-                sanitized_expr.append(f" {new_name} ")
+    for expr_part in UNQUOTED_BACKTICK_MATCHER.split(expr):
+        if len(expr_part) >= 2 and expr_part[0] == expr_part[-1] == "`":
+            # (a quoted name is one part: quote characters inside it are its own)
+            variable_name = expr_part[1:-1]
+            new_name = next(
+                (alias for alias, name in aliases.items() if name == variable_name),
+                None,
+            )  # the same name again: the same placeholder
+            if new_name is None:
+                new_name = sanitize_variable_name(variable_name, env, template=template)
+            while aliases.get(new_name, variable_name) != variable_name:
+                new_name += "_"
+            aliases[new_name] = variable_name
+            sanitized_expr.append(f" {new_name} ")
         else:
             sanitized_expr.append(expr_part)
 
